@@ -12,7 +12,7 @@ PROP = "C07"
 LEAN_MODULE = "Ztr.Props.C07"
 THEOREMS = [
     "Ztr.Channel.C07_roundtrip", "Ztr.Channel.C07_truncation_partial", "Ztr.Channel.C07_spawn_failure",
-    "Ztr.Channel.C07_noise_after", "Ztr.Channel.C07_no_report", "Ztr.Channel.C07_spoof_witness", "Ztr.Channel.splitLines_joinLines",
+    "Ztr.Channel.C07_noise_after", "Ztr.Channel.C07_no_report", "Ztr.Channel.C07_never_crash", "Ztr.Channel.C07_spoof_witness", "Ztr.Channel.splitLines_joinLines",
     "Ztr.Channel.parseNat_renderNat",
 ]
 RULE = ("child stderr byte strings: (noise lines) + report(ran, failing names, erroring names) + (noise), names over "
@@ -22,7 +22,7 @@ RULE = ("child stderr byte strings: (noise lines) + report(ran, failing names, e
         "with a fake Popen. Non-trivial = report with >= 1 name or a truncation; distinct by the byte string")
 ASSUMPTIONS = [
     "pipe EOF on child death and the reaping of the child are OS behaviour (sampled by real-crash runs in C02, not proved)",
-    "names handed to the parent are valid UTF-8 (the child encodes them); invalid bytes make the reader raise (modelled as crash)",
+    "names that are not valid UTF-8 (a child whose stderr is not UTF-8) are recorded with U+FFFD replacements; 'exactly the names' is claimed for valid UTF-8",
 ]
 TRUSTED = ["CPython bytes.split/strip/int()/decode (validated by the correspondence)"]
 
@@ -173,9 +173,23 @@ def run(ctx):
     for _ in range(3):
         cases.append(("spawn-fail", b"", None, b"", None, True, False))
 
+    # 5. reports of a child whose stderr is not UTF-8 (names arrive as latin-1 / arbitrary bytes)
+    raw_reports = {}
+    for _ in range(6 if ctx.quick() else 60):
+        nf, ne = rng.choice([0, 1, 2]), rng.choice([0, 1, 2])
+        rawnames = [bytes(rng.choice([0x74, 0xe9, 0xff, 0xc3, 0x28, 0x80, 0x41]) for _ in range(rng.choice([1, 4, 9])))
+                    for _ in range(nf + ne)]
+        ran = rng.choice([1, 5, 40]) + nf + ne
+        label = "rawnames%d" % len(raw_reports)
+        raw_reports[label] = (ran, rawnames[:nf], rawnames[nf:],
+                              b"%d %d %d\n" % (ran, nf, ne) + b"".join(n + b"\n" for n in rawnames))
+        cases.append((label, b"", None, b"", None, False, False))
+
     streams = []
     for label, pre, rep, post, cut, sf, spoofed in cases:
         data = b""
+        if label in raw_reports:
+            data = raw_reports[label][3]
         if rep is not None:
             data = real_child_report(*rep)
             if cut is not None:
@@ -220,7 +234,16 @@ def run(ctx):
         if not real["done"]:
             ctx.violation("result.done not set", case, signature="not-done")
             continue
-        if rep is not None or sf or label in ("garbage", "empty"):
+        if label in raw_reports:
+            ran, rf, re_, _ = raw_reports[label]
+            dec = lambda b: b.strip().decode("utf-8", "replace")  # noqa: E731
+            if real["kind"] != "ok" or real["ran"] != ran or real["fails"] != [dec(n) for n in rf] \
+                    or real["errs"] != [dec(n) for n in re_]:
+                ctx.violation("report with names that are not UTF-8: parent recorded kind=%s ran=%r fails=%r errs=%r (%s)" % (
+                    real["kind"], real["ran"], real["fails"][:3], real["errs"][:3], real["exc"]), case,
+                    signature="channel:rawnames:" + real["kind"])
+                continue
+        elif rep is not None or sf or label in ("garbage", "empty"):
             if rep is None:
                 # no report: an error must be recorded unless the garbage happens to contain a full report
                 want = ("commError",) if ans.get("kind") != "ok" else None
@@ -250,8 +273,8 @@ def run(ctx):
         if ans["kind"] != real["kind"]:
             ctx.drift("channel.parse", "%s: model %s, real %s (%s)" % (label, ans["kind"], real["kind"], real["exc"]), case)
         elif ans["kind"] == "ok":
-            mf = [bytes(b).decode() for b in ans["fails"]]
-            me = [bytes(b).decode() for b in ans["errs"]]
+            mf = [bytes(b).decode("utf-8", "replace") for b in ans["fails"]]
+            me = [bytes(b).decode("utf-8", "replace") for b in ans["errs"]]
             if mf != real["fails"] or me != real["errs"] or ans["ran"] != real["ran"]:
                 ctx.drift("channel.parse", "%s: model (%r,%r..) real (%r,%r..)" % (
                     label, ans["ran"], mf[:3], real["ran"], real["fails"][:3]), case)
